@@ -41,6 +41,6 @@ def make_configs(rng):
 
 def main(pid, tier, seed, replay):
     import common as C
-    return P.standard_check(pid, LEVEL, tier, seed, make_configs(C.SplitMix64(seed)), 30, 500, features,
+    return P.standard_check(pid, LEVEL, tier, seed, make_configs(C.SplitMix64(seed)), 30, 500, features, proof_pid="C05", rule=
         "generated programs (negation, aggregates, records, constraints binding output columns) x {no magic, all relations, 3 random subsets, "
         "exclusion list, magic/no_magic qualifiers}; non-trivial = distinct program with non-empty output")
